@@ -83,3 +83,84 @@ func GenUnobstructedScript(t *rapid.T, o GenOpts) *Script {
 	}
 	return s
 }
+
+// GenUnobstructedDepartmentsScript: two departments with one or two leaf queues each (children's quotas may
+// over-subscribe their department), one shape of single-pod 1-GPU workloads filling uniform nodes, a few pending
+// workloads spread over the leaves. Reclaim between sibling leaves of one department is judged by
+// ProgressOracle.departmentReclaim; workloads of the other department that legitimately fail are the obstruction.
+func GenUnobstructedDepartmentsScript(t *rapid.T, o GenOpts) *Script {
+	s := &Script{Prop: "C05", Profile: "unobstructed-departments"}
+	s.MapSeed = rapid.Uint64Range(1, 1<<62).Draw(t, "mapseed")
+	o.MinRuntime = false
+	s.Config = genConfig(t, o)
+	s.Config.MinRuntimeArgs = nil
+	if chance(t, "dallactions", 70) {
+		s.Config.Actions = []string{"allocate", "consolidation", "reclaim", "preempt", "stalegangeviction"}
+	}
+	nn := rapid.IntRange(1, 2).Draw(t, "dnodes")
+	g := int64(pick(t, "dgpus", 3, 4, 5, 6))
+	slots := nn * int(g)
+	for i := 0; i < nn; i++ {
+		s.World.Nodes = append(s.World.Nodes, NodeSpec{Name: fmt.Sprintf("n%d", i), CPUm: 64000, MemMi: 262144, Pods: 110, GPUs: g})
+	}
+	unl := QRes{Quota: -1, Limit: -1, Weight: 1}
+	var leaves []string
+	d0 := rapid.IntRange(1, slots-1).Draw(t, "d0quota")
+	for d, dq := range []int{d0, slots - d0} {
+		if chance(t, "dslack", 25) {
+			dq = rapid.IntRange(0, slots).Draw(t, "dquota")
+		}
+		s.World.Queues = append(s.World.Queues, QueueSpec{Name: fmt.Sprintf("d%d", d), GPU: QRes{Quota: float64(dq), Limit: -1, Weight: pick(t, "dw", 0.0, 1.0)}, CPU: unl, Mem: unl})
+		for l := 0; l < rapid.IntRange(1, 2).Draw(t, "dleaves")+d%2*0; l++ {
+			name := fmt.Sprintf("d%dq%d", d, l)
+			s.World.Queues = append(s.World.Queues, QueueSpec{Name: name, Parent: fmt.Sprintf("d%d", d), GPU: QRes{Quota: float64(rapid.IntRange(0, max(1, dq)).Draw(t, "lquota")), Limit: -1, Weight: pick(t, "lw", 0.0, 1.0)}, CPU: unl, Mem: unl})
+			leaves = append(leaves, name)
+		}
+	}
+	s.World.PriorityClasses = []PriorityClassSpec{{"train", 50}, {"build", 100}, {"inference", 125}, {"low", 25}}
+	solid := map[string]bool{}
+	if chance(t, "dsolid", 50) {
+		solid[pick(t, "dsolidwhich", "d0", "d1")] = true
+	}
+	leave := 0
+	if chance(t, "dfree", 15) {
+		leave = 1
+	}
+	k := 0
+	for i := 0; i < nn; i++ {
+		for j := 0; j < int(g) && k < slots-leave; j++ {
+			w := WorkloadSpec{Name: fmt.Sprintf("r%d", k), Queue: pick(t, "rq", leaves...), MinMember: 1, AgeSec: int64(rapid.IntRange(1, 5000).Draw(t, "rage")), PriorityClass: pick(t, "rpc", "train", "train", "low")}
+			if solid[w.Queue[:2]] { // non-preemptible: no victim candidates in this department
+				if chance(t, "rsolidbylabel", 50) {
+					w.Preemptibility = "non-preemptible"
+				} else {
+					w.PriorityClass = "build"
+				}
+			}
+			ago := int64(rapid.IntRange(100, 10000).Draw(t, "rls"))
+			w.LastStartAgo = &ago
+			w.Pods = []PodSpec{{Name: fmt.Sprintf("r%d-p0", k), CPUm: 500, MemMi: 512, GPUs: 1, State: "running", Node: fmt.Sprintf("n%d", i)}}
+			s.World.Workloads = append(s.World.Workloads, w)
+			k++
+		}
+	}
+	for i := 0; i < rapid.IntRange(1, 4).Draw(t, "dpending"); i++ {
+		w := WorkloadSpec{Name: fmt.Sprintf("p%d", i), Queue: pick(t, "pq", leaves...), MinMember: 1, AgeSec: int64(rapid.IntRange(1, 5000).Draw(t, "page")), PriorityClass: pick(t, "ppc", "train", "train", "low")}
+		if solid[w.Queue[:2]] {
+			w.Preemptibility = "non-preemptible" // same priority class (same scheduling signature) as the other department's jobs
+		}
+		w.Pods = []PodSpec{{Name: fmt.Sprintf("p%d-p0", i), CPUm: 500, MemMi: 512, GPUs: 1, State: "pending"}}
+		s.World.Workloads = append(s.World.Workloads, w)
+	}
+	s.Ops = []Op{{Kind: "cycle"}, {Kind: "binder"}, {Kind: "kubelet"}}
+	for c := 0; c < rapid.IntRange(0, 2).Draw(t, "dmore"); c++ {
+		switch pick(t, "dchange", "quota", "quota", "complete", "none") {
+		case "quota":
+			s.Ops = append(s.Ops, Op{Kind: "set_quota", Arg: pick(t, "dq", leaves...), N: rapid.IntRange(0, slots).Draw(t, "dnewquota")})
+		case "complete":
+			s.Ops = append(s.Ops, Op{Kind: "complete", Arg: fmt.Sprintf("r%d-p0", rapid.IntRange(0, max(0, k-1)).Draw(t, "dcomp"))})
+		}
+		s.Ops = append(s.Ops, Op{Kind: "advance", N: pick(t, "dadv", 1, 61)}, Op{Kind: "cycle"}, Op{Kind: "binder"}, Op{Kind: "kubelet"})
+	}
+	return s
+}
